@@ -108,23 +108,73 @@ func quoteString(s string) string {
 
 func getDescription(raw interface{}) string {
 	var desc string
+	present := false
 
 	switch node := raw.(type) {
 	case ast.DescribableNode:
 		if sval := node.GetDescription(); sval != nil {
 			desc = sval.Value
+			present = true
 		}
 	case map[string]interface{}:
-		desc = getMapValueString(node, "Description.Value")
-	}
-	if desc != "" {
-		sep := ""
-		if strings.ContainsRune(desc, '\n') {
-			sep = "\n"
+		switch d := node["Description"].(type) {
+		case *ast.StringValue:
+			if d != nil {
+				desc = d.Value
+				present = true
+			}
+		case map[string]interface{}:
+			desc = getMapValueString(node, "Description.Value")
+			present = true
 		}
-		desc = join([]string{`"""`, desc, `"""`}, sep)
 	}
-	return desc
+	if !present {
+		return ""
+	}
+	// A block string is only used when lexing it gives the description back;
+	// anything else (empty, quotes at the end, triple quotes, control
+	// characters, indentation or blank lines the block-string rules would
+	// strip) is printed as an ordinary, escaped string.
+	if !blockStringPreserves(desc) {
+		return quoteString(desc)
+	}
+	sep := ""
+	if strings.ContainsRune(desc, '\n') {
+		sep = "\n"
+	}
+	return `"""` + sep + desc + sep + `"""`
+}
+
+func isBlankLine(line string) bool {
+	return strings.Trim(line, " \t") == ""
+}
+
+// blockStringPreserves reports whether printing desc as a block string (on
+// one line, or on its own lines when it contains a line feed) and applying
+// the BlockStringValue() algorithm yields desc again.
+func blockStringPreserves(desc string) bool {
+	if desc == "" || strings.Contains(desc, `"""`) || strings.HasSuffix(desc, `"`) || strings.HasSuffix(desc, `\`) {
+		return false
+	}
+	for _, r := range desc {
+		if r < 0x20 && r != '\n' && r != '\t' {
+			return false
+		}
+	}
+	lines := strings.Split(desc, "\n")
+	if isBlankLine(lines[0]) || isBlankLine(lines[len(lines)-1]) {
+		return false
+	}
+	if len(lines) == 1 {
+		return true
+	}
+	// The common indentation of the lines is removed: it has to be zero.
+	for _, line := range lines {
+		if !isBlankLine(line) && line[0] != ' ' && line[0] != '\t' {
+			return true
+		}
+	}
+	return false
 }
 
 func toSliceString(slice interface{}) []string {
